@@ -50,7 +50,7 @@ func (w *c20Server) Run(ctx context.Context) error {
 var c20Mu sync.Mutex // http.DefaultTransport and the verifhook ServeHTTP seam are process-global
 
 func (c20) Run(e *Env) {
-	e.ProbeDecl("invocation", "invocation-without-data", "upstream-slow", "upstream-5xx-then-ok", "upstream-abandoned", "telemetry-other-records", "telemetry-init-runtime-done", "datapoint-during-init", "startup-failure", "shutdown", "flush-split-into-several-requests")
+	e.ProbeDecl("invocation", "invocation-without-data", "upstream-slow", "upstream-5xx-then-ok", "upstream-abandoned", "telemetry-other-records", "telemetry-init-runtime-done", "datapoint-during-init", "startup-failure", "shutdown", "flush-split-into-several-requests", "datapoint-holding-slot-at-flush", "datapoint-released-after-flush-began")
 	c20Mu.Lock()
 	defer c20Mu.Unlock()
 	fab := NewFabric()
@@ -83,7 +83,8 @@ func (c20) Run(e *Env) {
 	v := viper.New()
 	v.Set("http-transport.api-endpoint", "http://upstream")
 	v.Set("http-transport.consolidator-slots", e.Range(1, 3))
-	v.Set("http-transport.max-requests", 4)
+	maxReq := e.Range(1, 4)
+	v.Set("http-transport.max-requests", maxReq)
 	v.Set("http-transport.compress", e.Bool())
 	v.Set("http-transport.max-request-elapsed-time", window)
 	v.Set("http-transport.flush-interval", time.Second)
@@ -98,6 +99,16 @@ func (c20) Run(e *Env) {
 	cl.Client.Transport = fab
 	fc := flush.NewFlushCoordinator()
 	startupFailure := e.Chance(1, 8)
+	// a quarter of the runs arm the H1 yield site inside the consolidator: a datapoint being merged
+	// holds its slot while the end-of-invocation flush begins
+	yg := &yieldGate{gate: NewGate("yield"), anyObj: true, sites: map[string]bool{}}
+	if e.Chance(1, 4) {
+		yg.sites["consolidator.receive.holding-slot"] = true
+		verifhook.SetYield(yg.fn)
+		defer verifhook.SetYield(nil)
+		defer yg.gate.Open(nil)
+		e.Probe("datapoint-holding-slot-at-flush")
+	}
 	sock := NewSimSocket()
 	srv := &statsd.Server{
 		Viper: v, TransportPool: pool, ForwarderFlushCoordinator: fc, ServerMode: "forwarder",
@@ -106,7 +117,11 @@ func (c20) Run(e *Env) {
 	}
 	wrap := &c20Server{s: srv, sock: sock}
 	if startupFailure {
-		wrap.fail = fmt.Errorf("simulated start-up failure: cannot bind metrics address")
+		wrap.fail = []error{
+			fmt.Errorf("simulated start-up failure: cannot bind metrics address"),
+			fmt.Errorf("simulated start-up failure: dial statsd upstream: %w", context.Canceled),
+			fmt.Errorf("simulated start-up failure: resolve: %w", context.DeadlineExceeded),
+		}[e.Draw(3)]
 		e.Probe("startup-failure")
 	}
 	mgr := extension.NewManager("lambda", "gostatsd", logrus.StandardLogger(), wrap, extension.WithManualFlushEnabled(fc, telemetryAddr))
@@ -171,11 +186,11 @@ func (c20) Run(e *Env) {
 		b, _ := json.Marshal(map[string]any{"eventType": kind, "deadlineMs": 1, "requestId": "r", "invokedFunctionArn": "arn"})
 		return HTTPOutcome{Kind: "status", Status: 200, Body: b}
 	}
-	invocation := 0          // number of INVOKE answers given
-	runtimeDoneSent := true  // for the current invocation (vacuously true before the first)
-	lastDoneInvocation := 0  // highest invocation whose runtime-done telemetry has been delivered
-	var pendingNext *Parked  // the parked GET /event/next
-	var parkedUp []*Parked   // parked upstream requests
+	invocation := 0         // number of INVOKE answers given
+	runtimeDoneSent := true // for the current invocation (vacuously true before the first)
+	lastDoneInvocation := 0 // highest invocation whose runtime-done telemetry has been delivered
+	var pendingNext *Parked // the parked GET /event/next
+	var parkedUp []*Parked  // parked upstream requests
 	nDP := 0
 
 	canonBody := func(r *HTTPReq) (string, []string) {
@@ -293,13 +308,25 @@ func (c20) Run(e *Env) {
 				line += "|#service:" + svc
 			}
 		}
+		if len(yg.sites) > 0 {
+			yg.off.Store(!e.Chance(1, 3)) // only some datapoints are caught in the middle of their merge
+		}
 		sock.Deliver(&Dgram{ID: nDP, Payload: []byte(line), Addr: ClientAddr(0)})
 		e.Settle()
+		yg.off.Store(true)
+		if yg.gate.Len() > 0 {
+			// still being merged (parked holding its consolidator slot): in flight, not yet accepted
+			d.doneAt = false
+			e.Event("datapoint %s in flight, holding its slot (invocation %d)", d.member, invocation)
+			return
+		}
 		e.Event("datapoint %s accepted in invocation %d", d.member, invocation)
 	}
 	telemetry := func(withDone bool) {
 		var recs []map[string]any
-		add := func(t string) { recs = append(recs, map[string]any{"time": "2000-01-01T00:00:00Z", "type": t, "record": map[string]any{}}) }
+		add := func(t string) {
+			recs = append(recs, map[string]any{"time": "2000-01-01T00:00:00Z", "type": t, "record": map[string]any{}})
+		}
 		for i, n := 0, e.Draw(3); i < n; i++ {
 			t := []string{"platform.start", "platform.initStart", "platform.initRuntimeDone", "platform.initReport", "platform.restoreRuntimeDone", "platform.extension", "function", "platform.logsDropped"}[e.Draw(8)]
 			if strings.Contains(t, "RuntimeDone") {
@@ -377,8 +404,25 @@ func (c20) Run(e *Env) {
 			scan()
 			checkNext(phase)
 			e.Check()
-			if len(parkedUp) == 0 {
+			if runtimeDoneSent && yg.gate.Len() > 0 && guard > 0 {
+				// the flush has begun (it waits for the held slot); now the merge completes
+				for _, p := range yg.gate.Parked() {
+					yg.gate.Release(p, nil)
+				}
+				e.Probe("datapoint-released-after-flush-began")
+				e.Event("held datapoint released")
+				scan()
+				checkNext(phase)
+			}
+			if dynHeaders && len(parkedUp) >= maxReq {
+				e.Unstable("request-tokens-saturated") // which header group gets the last token follows a Go map walk
+			}
+			if len(parkedUp) == 0 && yg.gate.Len() == 0 {
 				return
+			}
+			if len(parkedUp) == 0 {
+				time.Sleep(50 * time.Millisecond)
+				continue
 			}
 			if len(parkedUp) > 1 {
 				e.Probe("flush-split-into-several-requests")
@@ -503,6 +547,9 @@ func (c20) Run(e *Env) {
 					found = true
 				}
 			}
+		}
+		if !found && !d.doneAt && d.inv >= nInv {
+			continue // still in flight when the last runtime-done arrived: no later flush exists to carry it
 		}
 		if !found {
 			e.Failf("C20/datapoint-never-sent", "datapoint %s (invocation %d) never appeared in an upstream request", d.member, d.inv)
